@@ -894,6 +894,8 @@ def region(prog, root, within=None, depth=4):
         if d >= depth:
             continue
         for ev in f.events("call"):
+            if ev.get("inlined"):
+                continue
             for g in prog.resolve_call(ev):
                 if g.blocks and g.id not in seen and (within is None or within(g)):
                     work.append((g, d + 1))
